@@ -348,8 +348,10 @@ class WebSocketApp:
 
             self._stop_ping_thread()
             self.keep_running = False
-            if self.sock:
-                self.sock.close()
+            # close() may run on another thread and drop self.sock at any moment
+            sock = self.sock
+            if sock:
+                sock.close()
             close_status_code, close_reason = self._get_close_args(
                 close_frame if close_frame else None
             )
